@@ -131,6 +131,20 @@ func (m *Model) lastValidators(h int64) []*MDeleg {
 	return topN(s, &s.Params)
 }
 
+// tieAtCut: do the last included and the first excluded candidate of the validator list in force at h have equal power?
+func (m *Model) tieAtCut(h int64) bool {
+	if h <= 1 {
+		return false
+	}
+	s := m.Hist[h-2]
+	if s == nil {
+		return false
+	}
+	r := rankDelegatees(s, &s.Params)
+	n := int(s.Params.MaxValidatorCnt)
+	return n > 0 && len(r) > n && r[n-1].Total == r[n].Total
+}
+
 func (d *MDeleg) recompute() {
 	d.Self, d.Total = 0, 0
 	for _, s := range d.Stakes {
@@ -193,26 +207,13 @@ func markNotSigned(d *MDeleg, h int64) {
 	d.NotSigned = append(d.NotSigned, h)
 }
 
-// countInWindow mirrors the committed representation of the missed-block marks:
-// marks older than the window start are dropped once at least two of them exist.
+// countInWindow counts the missed-block marks inside [h0, h1].
 func countInWindow(d *MDeleg, h0, h1 int64) int {
-	if h0 > h1 {
-		return 0
-	}
-	cnt, pre := 0, -1
-	for i, h := range d.NotSigned {
-		if h < h0 {
-			pre = i
-		}
+	cnt := 0
+	for _, h := range d.NotSigned {
 		if h >= h0 && h <= h1 {
 			cnt++
 		}
-		if h >= h1 {
-			break
-		}
-	}
-	if pre > 0 {
-		d.NotSigned = append([]int64(nil), d.NotSigned[pre+1:]...)
 	}
 	return cnt
 }
@@ -226,6 +227,8 @@ type stepOut struct {
 	Slashed  []string
 	Frozen   int
 	Applied  int
+	// Ambiguous: keys (proposal hashes) whose expected content is not pinned by any property in this block
+	Ambiguous map[string]bool
 }
 
 // Step predicts block h. pre = observed state(h-1).
@@ -234,8 +237,11 @@ func (m *Model) Step(b *BlockSpec, txs []*TxInfo, res *BlockResult) *stepOut {
 	pre := m.Hist[h-1]
 	ws := pre.clone()
 	ws.Height = h
+	if f := h - 1 - pre.Params.SignedBlocksWindow; f > 0 {
+		ws.MarkFloor = f
+	}
 	P := pre.Params // parameters in force during block h
-	out := &stepOut{Burned: new(big.Int), Minted: new(big.Int)}
+	out := &stepOut{Burned: new(big.Int), Minted: new(big.Int), Ambiguous: map[string]bool{}}
 	issue := func(prop, sig, detail string) {
 		out.Issues = append(out.Issues, Issue{prop, sig, fmt.Sprintf("block %d: %s", h, detail)})
 	}
@@ -243,7 +249,11 @@ func (m *Model) Step(b *BlockSpec, txs []*TxInfo, res *BlockResult) *stepOut {
 	// ---- BeginBlock: evidence ------------------------------------------------------
 	for _, ev := range b.Evidence {
 		a := hx(ev.Addr)
-		for _, p := range ws.Proposals {
+		for k, p := range ws.Proposals {
+			if p.Voters[a] != nil && p.End < h {
+				// the proposal is closed in this very block: whether the closing tally sees this punishment is not pinned down
+				out.Ambiguous[k] = true
+			}
 			punishProposal(p, a, P.SlashRatio)
 		}
 	}
@@ -709,6 +719,9 @@ func (m *Model) applyTx(ws *MState, ti *TxInfo, r *abci.ResponseDeliverTx, h int
 		}
 		if len(pl.Options) == 0 {
 			issue("C15", "proposal-without-options-accepted", "no options")
+		}
+		if m.tieAtCut(h) {
+			out.Ambiguous[ti.Hash] = true // equal powers across the validator cut: the snapshot may legitimately hold either candidate
 		}
 		np := &MProposal{TxHash: ti.Hash, Start: pl.StartVotingHeight, End: end, Applying: pl.ApplyingHeight, OptType: pl.OptType, Voters: map[string]*MVoter{}}
 		for _, v := range lastVals {
